@@ -794,6 +794,12 @@ class Super:
         caller = self.body_of((ppath, 0)) if ppath else self.root
         ct = caller.blocks[cbb]["term"]
         args = ct["args"]
+        cf = fn_of(ct) or {}
+        if cf.get("def") in CLOSURE_CALLS and arg_local >= 2 and len(args) == 2 and is_place(args[1]):
+            # `FnOnce::call_once(closure, (a, b))`: the closure's k-th parameter is element k-2 of the tuple
+            tup = args[1]["p"]
+            op = {"k": "move", "p": {"l": tup["l"], "pr": list(tup["pr"]) + [{"k": "field", "i": arg_local - 2, "name": str(arg_local - 2), "ty": "?"}], "ty": "?"}}
+            return (ppath, cbb), caller, op
         if 1 <= arg_local <= len(args):
             return (ppath, cbb), caller, args[arg_local - 1]
         return None
